@@ -17,7 +17,8 @@ from . import common
 from .common import Corr
 
 ID = "C17"
-LEAN_MODULES = ["TempestVerif.Props.C17"]
+LEAN_MODULES = ["TempestVerif.Props.C17", "TempestVerif.Props.C17Run", "TempestVerif.Props.C17Nested",
+                "TempestVerif.Props.C17Sites"]
 RULE = ("suite ops: random op sequences of length 5..60 over set/update (copy=True/False, None/scalar/new array/previously "
         "returned array), get_current(key|None), get_history(key, index|None, flat), get_last_history, commit(strict), "
         "compute_results, compute_logw_and_logz(beta), to_dict, update_from_dict / from_dict of an exported dictionary (in ~2/3 of the "
@@ -31,46 +32,80 @@ RULE = ("suite ops: random op sequences of length 5..60 over set/update (copy=Tr
         "suite sampler: Sampler(clustering=False) runs of 3..7 iterations with scribbling on the outputs of sample(), "
         "posterior() for all 8 combinations of return_logw x trim_importance_weights x resample (re-read with the same random "
         "stream), results(), state.to_dict(), state.compute_logw_and_logz(1.0); the mutator calls of the pipeline are replayed on the model; per iteration "
-        "exactly one batch is appended per recorded key and earlier batches are bit-identical.")
+        "exactly one batch is appended per recorded key and earlier batches are bit-identical; every outermost manager call made by "
+        "execute_iteration is recorded and the model decides (sm.iter) that the iteration has the shape body ++ [commit, get_current()] "
+        "with a body free of commit / import / copy=False (hypothesis of C17_iteration_appends_one_batch).  "
+        "suite posterior-composite: a well-formed history of 0..3 batches (blobs never / always / in _current only; blobs_dtype declared or "
+        "not), accessor calls and caller writes in between, then Sampler.posterior() with random options on the real SamplerCore and "
+        "compute_posterior of the model (Model/StateMgrX.lean): error or returned slots, payloads of x/logl and lengths of weights/logw "
+        "when no rows are selected, and the digests of all reads after the call and after the caller overwrote every returned array.  "
+        "suite resume-composite: op sequences, then the real save_state -> new Sampler -> load_state through a file against the model's "
+        "`resume` (to_dict; update_from_dict into a newly constructed manager; the defaults loop of load_sampler_state): digests of every "
+        "read of the resumed manager before and after the caller overwrote the exported dictionary and the old manager's current values.  "
+        "suite statemanager-nested: op sequences with CONTAINER values (object ndarray for blobs, list for assignments; elements None / "
+        "scalar / array / an array obtained earlier; copy=True/False; re-import of exported dictionaries) on the real StateManager "
+        "and on the nested model (Model/StateMgrN.lean, deep copies); the caller overwrites the arrays INSIDE returned containers, plain arrays "
+        "and the elements of containers; digests (payloads down to the elements) compared exactly after every op; non-trivial = a "
+        "commit, a returned container and a write into an array inside a returned container; the fixed sequences are also run under "
+        "the pre-fix rule (deep=0) and must be told apart.  "
+        "suite sampler-blobs (real code only, the property's exact oracle): Sampler runs whose likelihood returns no blob / a float / a "
+        "sub-array dtype / a structured dtype with a sub-array field / (array, str) tuples / dicts / ragged arrays with blobs_dtype=object, "
+        "tpcn and rwm; every array found anywhere inside sample(), results(), to_dict(), get_history*, get_current('blobs'), and "
+        "posterior() for all 16 option combinations is overwritten: no np.shares_memory with internal state, internal state and all "
+        "public re-reads bit-identical (deep comparison), one batch per iteration; then checkpoint -> new Sampler -> load_state: restored "
+        "history equal, nothing shared, writes to the imported dictionary invisible, two more iterations only append.")
 MODELLED = ["array shapes/dtypes are not modelled: payload = flattened content; generated sequences keep one shape per key "
             "(np.array of a ragged list is outside the model)",
             "numerical content of logw (compute_logw_and_logz, property C04): compared by length only; compute_results() is "
             "exercised only when the beta/logz/logl histories are well formed (same number of batches, beta/logz scalars, logl arrays)",
-            "from_dict: a second StateManager living beside the first is not in the model (single-manager state); the harness "
-            "covers it on the real code: other = StateManager.from_dict(d), then every read of `other` (current, history, results, "
-            "logw) must stay what it was while the caller overwrites / mutates d and keeps operating on the first manager (digest section O=)",
-            "list containers: update_from_dict builds fresh lists, so the model gives the caller's lists no identity; the harness "
+            "from_dict: a second StateManager living beside the first is modelled as `freshIn` (theorems C17_freshIn_inv, "
+            "C17_resume_shares_nothing) but not executed by the driver; the harness covers it on the real code: other = "
+            "StateManager.from_dict(d), then every read of `other` must stay what it was (digest section O=)",
+            "list containers of the exported dictionary: update_from_dict builds fresh lists, so the model gives the caller's lists no identity; the harness "
             "passes the exported lists themselves and mutates them afterwards (op `mut`), which must change nothing",
-            "save_state/load_state (dill round trip) = import of fresh arrays; not exercised here (C08)",
-            "non-ndarray mutable values (lists, object arrays) are outside the model: _ensure_copy returns them uncopied"]
+            "save_state/load_state (dill round trip) = import of fresh arrays; the value-level restoration is C08's (C08_restore, C08_resume_prefix); "
+            "here: suite sampler-blobs resumes a real checkpoint and checks sharing / append-only",
+            "nested values: the nested model has depth 2 (a container of arrays; an element that is itself a container is an opaque cell and "
+            "is rejected as an argument); deeper nesting (object array of dicts of arrays) is exercised on the real code only (suite sampler-blobs). "
+            "copy.deepcopy memoisation (two elements of one container that are the same array stay one array in the copy) is not modelled: "
+            "it concerns the caller's own copy only.  A top-level value of a type other than None / scalar / ndarray / list / tuple / dict "
+            "(a set, a custom object) is returned by reference by _ensure_copy (rule 4 of C17_ensure_copy_rules): never stored by the pipeline",
+            "rows selected by trim_weights / systematic_resample in posterior(): the gathered arrays are new cells without payload (C12 owns the "
+            "selection); get_last_history(default=): the caller's own object comes back (C17_accessor_returns row `param`; checked on the real code)"]
 ASSUMPTIONS = ["the caller can only write into arrays it was handed (returned by an accessor or created by itself)",
                "the only reference stored on request is set_current/update_current(copy=False): such an array may alias _current "
                "(ghost set `imported`) and the theorems about `_current` reads exclude exactly those addresses; it must still never alias "
-               "committed history or results (C17_history_indep_of_scribble; checked by the oracle).  Arrays and lists passed to "
+               "committed history or results (C17_history_indep_of_scribble, C17N_history_indep_of_caller_writes; checked by the oracle).  Arrays and lists passed to "
                "update_from_dict / from_dict are ordinary caller-held objects: nothing may alias them afterwards "
-               "(C17_import_never_aliases)"]
-
+               "(C17_import_never_aliases).  The pipeline itself never passes copy=False (C17_sites_no_opt_in, regenerated from source)",
+               "numpy: ndarray.copy() of a non-object array, np.array(list), np.concatenate(list), fancy / boolean indexing and arithmetic "
+               "return arrays that share no memory with their inputs; copy.deepcopy returns an object graph disjoint from its input "
+               "(suite sampler-blobs checks np.shares_memory == 0 on every accessor output every run)"]
 
 
 def translators():
-    """static tie G5 (key sets): the key lists hard-wired in Model/StateMgr.lean must be the sets of the real module"""
+    """static ties: G5-tables (key sets, step order, posterior tuples) and G5-smsites (copy discipline of state_manager.py, every
+    use of the manager elsewhere) are regenerated from the source and checked by the theorems of Props/C17Sites.lean; the
+    older textual check of the key lists hard-wired in Model/StateMgr.lean is kept as a third row"""
     import os
     import re
     from tempest import state_manager as smod
+    from translate import g5_tables, g5_smsites
+    rows = [g5_tables.generate(), g5_smsites.generate()]
     src = open(os.path.join(common.LEAN, "TempestVerif", "Model", "StateMgr.lean")).read()
     out = {}
     for name in ("currentKeys", "historyKeys"):
         m = re.search(r"def %s : List Key :=\s*\[([^\]]*)\]" % name, src)
         if not m:
-            return [("G5-keysets", "unavailable", f"cannot find {name} in the model source")]
+            return rows + [("G5-keysets", "unavailable", f"cannot find {name} in the model source")]
         out[name] = re.findall(r'"([^"]*)"', m.group(1))
     ok = (sorted(out["currentKeys"]) == sorted(smod.CURRENT_STATE_KEYS) and len(set(out["currentKeys"])) == len(out["currentKeys"])
           and sorted(out["historyKeys"]) == sorted(smod.HISTORY_STATE_KEYS) and len(set(out["historyKeys"])) == len(out["historyKeys"])
           and sorted(CUR_KEYS) == sorted(smod.CURRENT_STATE_KEYS) and sorted(HIST_KEYS) == sorted(smod.HISTORY_STATE_KEYS)
           and set(smod.REQUIRED_COMMIT_KEYS) == {"beta", "logl"})
-    return [("G5-keysets", "ok" if ok else "broken",
-             f"CURRENT_STATE_KEYS={sorted(smod.CURRENT_STATE_KEYS)} HISTORY_STATE_KEYS={sorted(smod.HISTORY_STATE_KEYS)} "
-             f"REQUIRED_COMMIT_KEYS={sorted(smod.REQUIRED_COMMIT_KEYS)} vs model {out}")]
+    return rows + [("G5-keysets", "ok" if ok else "broken",
+                    f"CURRENT_STATE_KEYS={sorted(smod.CURRENT_STATE_KEYS)} HISTORY_STATE_KEYS={sorted(smod.HISTORY_STATE_KEYS)} "
+                    f"REQUIRED_COMMIT_KEYS={sorted(smod.REQUIRED_COMMIT_KEYS)} vs model {out}")]
 
 
 CUR_KEYS = ["u", "x", "logl", "assignments", "blobs", "acceptance", "steps", "efficiency", "ess", "beta", "logz", "calls", "iter"]
@@ -196,9 +231,9 @@ def digest(sm, r, enc=None, with_results=True, check_cached_logw=True):
 
 # ------------------------------------------------------------------ executing op tokens on the real object
 class Real:
-    def __init__(self):
+    def __init__(self, sm=None):
         from tempest.state_manager import StateManager
-        self.sm = StateManager(2)
+        self.sm = StateManager(2) if sm is None else sm
         self.recs = []          # per op: (list of arrays the caller obtained, export dict or None)
         self.stats = {"commit": 0, "arrays_out": 0, "scribbled": 0}
         self.others = []        # second managers built by from_dict: (manager, digest of all its reads when it was built)
@@ -604,7 +639,7 @@ def model_async(lines, parts=4):
 
 # ------------------------------------------------------------------ suite 1
 def correspond_ops(tier):
-    n = 1500 if tier == "quick" else 30000
+    n = 1500 if tier == "quick" else 22000
     rng = common.rng_for("C17.ops")
     c = Corr("statemanager-ops", "exact (reference model, no arithmetic)")
     seqs = [gen_sequence(rng) for _ in range(n)]
@@ -648,35 +683,69 @@ FIXED = [
 
 # ------------------------------------------------------------------ suite 2: real Sampler iterations
 class _Recorder:
-    """wraps the mutators of a live StateManager and records every call as a model op token"""
+    """wraps the public methods of a live StateManager and records every OUTERMOST call as a model op token (calls the
+    manager makes on itself, e.g. compute_results -> get_history, are part of the recorded call)"""
+
+    NAMES = ("set_current", "update_current", "commit_current_to_history", "update_from_dict", "get_current", "get_history",
+             "get_last_history", "compute_logw_and_logz", "compute_results", "to_dict")
 
     def __init__(self, sm, enc):
         self.sm, self.enc, self.toks = sm, enc, []
         self.n_commit = 0
-        for name in ("set_current", "update_current", "commit_current_to_history", "update_from_dict"):
+        self.depth = 0
+        self.all_calls = None     # when a list: every outermost call (getters too) is appended here (used around sample())
+        for name in self.NAMES:
             setattr(sm, name, self._wrap(name, getattr(sm, name)))
 
     def _arg(self, v):
         s = self.enc(v) if v is not None else "N"
         return s
 
+    def _token(self, name, a, k):
+        if name == "set_current":
+            key, val = a[0], a[1]
+            cp = k.get("copy", a[2] if len(a) > 2 else True)
+            return f"set:{key}:{self._arg(val)}:{int(bool(cp))}"
+        if name == "update_current":
+            d = a[0]
+            cp = k.get("copy", a[1] if len(a) > 1 else True)
+            return "upd:" + (",".join(f"{kk}~{self._arg(v)}" for kk, v in d.items()) or "-") + f":{int(bool(cp))}"
+        if name == "commit_current_to_history":
+            st = k.get("strict", a[0] if a else False)
+            self.n_commit += 1
+            return f"commit:{int(bool(st))}"
+        if name == "get_current":
+            key = k.get("key", a[0] if a else None)
+            return "getall" if key is None else f"get:{key}"
+        if name == "get_history":
+            key = k.get("key", a[0] if a else None)
+            idx = k.get("index", a[1] if len(a) > 1 else None)
+            fl = k.get("flat", a[2] if len(a) > 2 else False)
+            return f"geth:{key}:{'*' if idx is None else int(idx)}:{int(bool(fl))}"
+        if name == "get_last_history":
+            return f"getl:{k.get('key', a[0] if a else None)}"
+        if name == "compute_logw_and_logz":
+            b = k.get("beta_final", a[0] if a else 1.0)
+            return f"logw:{int(b)}" if float(b) == int(b) else "logw:1"
+        if name == "compute_results":
+            return "results"
+        if name == "to_dict":
+            return "todict"
+        return "UNSUPPORTED:" + name
+
     def _wrap(self, name, f):
         def g(*a, **k):
-            if name == "set_current":
-                key, val = a[0], a[1]
-                cp = k.get("copy", a[2] if len(a) > 2 else True)
-                self.toks.append(f"set:{key}:{self._arg(val)}:{int(bool(cp))}")
-            elif name == "update_current":
-                d = a[0]
-                cp = k.get("copy", a[1] if len(a) > 1 else True)
-                self.toks.append("upd:" + (",".join(f"{kk}~{self._arg(v)}" for kk, v in d.items()) or "-") + f":{int(bool(cp))}")
-            elif name == "commit_current_to_history":
-                st = k.get("strict", a[0] if a else False)
-                self.toks.append(f"commit:{int(bool(st))}")
-                self.n_commit += 1
-            else:
-                self.toks.append("UNSUPPORTED:update_from_dict")
-            return f(*a, **k)
+            if self.depth == 0:
+                tok = self._token(name, a, k)
+                if name in ("set_current", "update_current", "commit_current_to_history", "update_from_dict"):
+                    self.toks.append(tok)
+                if self.all_calls is not None:
+                    self.all_calls.append(tok)
+            self.depth += 1
+            try:
+                return f(*a, **k)
+            finally:
+                self.depth -= 1
         return g
 
 
@@ -771,6 +840,7 @@ def _sampler_run(seed, n_iter, rng, c, do_scribble):
     problems = []
     enc = _Enc()
     toks, impl = [], []
+    shapes = _sampler_run.shapes = []      # per iteration: the manager calls execute_iteration made (for `sm.iter`)
     with contextlib.redirect_stdout(io.StringIO()), warnings.catch_warnings():
         warnings.simplefilter("ignore")
         np.random.seed(seed)
@@ -794,7 +864,10 @@ def _sampler_run(seed, n_iter, rng, c, do_scribble):
         for it in range(n_iter):
             before = _snapshot(sm)
             nc = rec.n_commit
+            rec.all_calls = []
             st = s.sample()
+            shapes.append(";".join(rec.all_calls))
+            rec.all_calls = None
             after = _snapshot(sm)
             if rec.n_commit != nc + 1:
                 problems.append(f"iteration {it}: {rec.n_commit - nc} commits (want exactly 1)")
@@ -882,20 +955,30 @@ def _sampler_run(seed, n_iter, rng, c, do_scribble):
 
 
 def correspond_sampler(tier):
-    n = 18 if tier == "quick" else 150
+    n = 14 if tier == "quick" else 100
     rng = common.rng_for("C17.sampler")
     c = Corr("sampler-iterations", "exact (recorded mutator calls replayed on the reference model; values named by content)")
     drv = common.Driver()
     runs = []
+    iter_lines = []
     for j in range(n):
         seed = rng.randint(0, 2 ** 31 - 1)
         n_iter = rng.randint(3, 7)
         toks, impl, problems = sampler_run(seed, n_iter, rng, c)
+        iter_lines += [(seed, sh) for sh in getattr(_sampler_run, "shapes", [])]
         c.count("pipeline_mutator_calls", sum(1 for t in toks if t.split(":")[0] in ("set", "upd", "commit")))
         c.count("pipeline_copy_false_calls", sum(1 for t in toks if t.split(":")[0] in ("set", "upd") and t.endswith(":0")))
         runs.append((seed, n_iter, toks, impl, problems))
     lines = ["sm.run ops=" + (";".join(t[2]) or "-") for t in runs]
     model = drv.batch(lines)
+    # every real iteration must have the shape of the iteration model: body (no commit / import / copy=False), commit, get_current()
+    for (seed, sh), ans in zip(iter_lines, drv.batch(["sm.iter ops=" + (sh or "-") for _, sh in iter_lines])):
+        c.count("iteration_shape:" + ans.split(":")[0])
+        if ans[:3] == "ok:":
+            c.count("iteration_body_ops", int(ans[3:]))
+        else:
+            c.disagree(input=f"sampler seed={seed}", impl=f"manager calls of one execute_iteration: {sh[:300]}",
+                       model="body ++ [commit(), get_current()]", sampler_seed=seed)
     for (seed, n_iter, toks, impl, problems), line, ans in zip(runs, lines, model):
         c.case((seed, n_iter, toks), n_iter >= 2)
         m = ans.split("|")
@@ -919,8 +1002,150 @@ def correspond_sampler(tier):
     return c
 
 
+# ------------------------------------------------------------------ suite: compute_posterior as a composite accessor
+def gen_post(rng):
+    """a well-formed history of 0..3 batches (u, x, logl of one length; beta, logz scalars; blobs never / always / current only),
+    accessor calls and caller writes in between, then posterior() with random options"""
+    n = rng.randint(1, 3)
+    commits = rng.choice([0, 1, 1, 2, 2, 3])
+    blobs_mode = rng.choice(["never", "never", "always", "always", "current-only"])
+    declared = rng.random() < 0.4
+    toks = []
+    arr = lambda: "A" + ".".join(str(rng.randint(-4, 4)) for _ in range(n))  # noqa
+    for c in range(commits):
+        for k in rng.sample(["u", "x", "logl"], 3):
+            toks.append(f"set:{k}:{arr()}:1")
+        toks.append(f"set:beta:S{c}:1")
+        toks.append(f"set:logz:S{rng.randint(-1, 1)}:1")
+        if blobs_mode == "always":
+            toks.append(f"set:blobs:{arr()}:1")
+        if rng.random() < 0.4:
+            toks.append(rng.choice(["get:u", "getall", "geth:u:*:1", "results", "todict", "logw:1"]))
+            toks.append(f"scr:{len(toks) - 1}:{SENTINEL}")
+        toks.append("commit:0")
+    if blobs_mode == "current-only":
+        toks.append(f"set:blobs:{arr()}:1")
+    if rng.random() < 0.3:
+        toks.append(rng.choice(["results", "geth:x:*:1", "getall"]))
+    opts = dict(resample=rng.random() < 0.4, return_blobs=rng.random() < 0.5,
+                trim_importance_weights=rng.random() < 0.5, return_logw=rng.random() < 0.5)
+    return toks, opts, declared, (commits, blobs_mode)
+
+
+def _slot(name, v, exact):
+    if v is None:
+        return f"{name}=N"
+    if not exact:
+        return f"{name}=A?"
+    if name in ("weights", "logw"):
+        return f"{name}=L{int(np.asarray(v).size)}"
+    return f"{name}={_pv(np.asarray(v))}"
+
+
+def correspond_post(tier):
+    from .witnesses import _mk_sampler
+    n = 250 if tier == "quick" else 4000
+    rng = common.rng_for("C17.post")
+    c = Corr("posterior-composite", "exact (reference model of compute_posterior: errors, returned slots, payloads where no rows are "
+                                    "selected, independence of every read from the caller's writes)")
+    cases = [gen_post(rng) for _ in range(n)]
+    lines = []
+    for toks, opts, declared, _ in cases:
+        bits = "".join("1" if b else "0" for b in (opts["resample"], opts["return_blobs"], opts["trim_importance_weights"],
+                                                    opts["return_logw"], declared))
+        lines.append(f"sm.post ops={';'.join(toks) or '-'} opt={bits} scr={SENTINEL}")
+    model = common.Driver().batch(lines)
+    for (toks, opts, declared, meta), line, ans in zip(cases, lines, model):
+        with contextlib.redirect_stdout(io.StringIO()), warnings.catch_warnings():
+            warnings.simplefilter("ignore")
+            np.random.seed(rng.randint(0, 2 ** 31 - 1))
+            s = _mk_sampler(clustering=False, n_particles=4, **({"blobs_dtype": "f8"} if declared else {}))
+            r = Real(s.state)
+            for t in toks:
+                r.exec(t)
+            try:
+                with np.errstate(all="ignore"):
+                    out = s.posterior(**opts)
+                names = ["x", "weights", "logl"] + (["blobs"] if len(out) == 4 + int(opts["return_logw"]) else []) + \
+                        (["logw"] if opts["return_logw"] else [])
+                exact = not (opts["resample"] or opts["trim_importance_weights"])
+                res = ",".join(_slot(nm, v, exact) for nm, v in zip(names, out)) if len(names) == len(out) else f"arity:{len(out)}"
+            except ValueError:
+                out, res = (), "E:value"
+            except Exception as e:  # noqa
+                out, res = (), f"raised:{type(e).__name__}:{e}"
+            d1 = digest(s.state, "-") + "#O=-"
+            n_scr = _scribble(out)
+            d2 = digest(s.state, "-") + "#O=-"
+        impl = f"{res}#{d1}#{d2}"
+        c.case((toks, sorted(opts.items()), declared), meta[0] >= 1 and n_scr >= 1)
+        c.count("result:" + ("error" if res[:2] == "E:" else "tuple" if res[:2] == "x=" else "other"))
+        c.count(f"commits={meta[0]}")
+        c.count(f"blobs={meta[1]}{'+declared' if declared else ''}")
+        c.count("opts:" + "".join(t for t, k in (("rs", "resample"), ("rb", "return_blobs"), ("tr", "trim_importance_weights"),
+                                                 ("rl", "return_logw")) if opts[k]))
+        c.count("returned_blobs", int("blobs=" in res))
+        c.count("scribbled_outputs", n_scr)
+        if impl != ans:
+            c.disagree(input=line, impl=impl[:600], model=ans[:600], post_case=[toks, opts, declared])
+        c.sample({"ops": ";".join(toks), "opts": opts, "declared": declared, "result": res})
+    return c
+
+
+def correspond_resume(tier):
+    """checkpoint -> NEW Sampler -> load_state (real save_sampler_state / load_sampler_state, through a file) against the model's
+    `resume` (export; update_from_dict into a newly constructed manager; the defaults loop): every read of the resumed manager,
+    before and after the caller overwrites the exported dictionary and what the old manager hands out"""
+    import os
+    import shutil
+    import tempfile
+    from .witnesses import _mk_sampler
+    n = 120 if tier == "quick" else 1500
+    rng = common.rng_for("C17.resume")
+    c = Corr("resume-composite", "exact (reference model of load_sampler_state: update_from_dict into a new manager + defaults)")
+    cases = []
+    for _ in range(n):
+        if rng.random() < 0.5:
+            toks = gen_post(rng)[0]
+        else:
+            toks = [t for t in gen_sequence(rng) if t.split(":")[0] not in ("fromd", "mut")][:rng.randint(3, 30)]
+        cases.append(toks)
+    lines = [f"sm.resume ops={';'.join(t) or '-'} scr={SENTINEL}" for t in cases]
+    model = common.Driver().batch(lines)
+    d = tempfile.mkdtemp(prefix="c17_resume_")
+    try:
+        for j, (toks, line, ans) in enumerate(zip(cases, lines, model)):
+            with contextlib.redirect_stdout(io.StringIO()), warnings.catch_warnings():
+                warnings.simplefilter("ignore")
+                s1 = _mk_sampler(clustering=False, n_particles=4)
+                r = Real(s1.state)
+                for t in toks:
+                    r.exec(t)
+                path = os.path.join(d, f"ck{j % 4}.state")
+                exported = s1.state.to_dict()
+                s1.save_state(path)
+                s2 = _mk_sampler(clustering=False, n_particles=4)
+                s2.load_state(path)
+                d1 = digest(s2.state, "-") + "#O=-"
+                n_scr = _scribble(exported["_current"]) + _scribble(exported["_history"]) + _scribble(s1.state.get_current())
+                d2 = digest(s2.state, "-") + "#O=-"
+            impl = f"{d1}#{d2}"
+            c.case(toks, r.stats["commit"] >= 1 and n_scr >= 1)
+            c.count("commits", r.stats["commit"])
+            c.count("defaults_applied", sum(1 for k in ("iter", "calls", "beta", "logz", "steps", "acceptance", "efficiency")
+                                            if s1.state.get_current(k) is None))
+            if impl != ans:
+                c.disagree(input=line, impl=impl[:500], model=ans[:500], resume_ops=toks)
+            c.sample({"ops": ";".join(toks), "resumed_digest": d1[:300]})
+    finally:
+        shutil.rmtree(d, ignore_errors=True)
+    return c
+
+
 def correspond(tier):
-    return [correspond_ops(tier), correspond_sampler(tier)]
+    from . import c17_nested
+    return [correspond_ops(tier), correspond_sampler(tier), correspond_post(tier), correspond_resume(tier),
+            c17_nested.correspond_nested(tier), c17_nested.correspond_blobs(tier)]
 
 
 # ------------------------------------------------------------------ property oracle on the real code
@@ -1164,8 +1389,105 @@ def search(tier, hints):
                 if problems:
                     found.append({"what": problems[0], "sampler_seed": h["sampler_seed"], "n_iter": 4})
                     break
-    found.sort(key=lambda f: len(f.get("ops", [])) or 99)
+    from . import c17_nested
+    if not found or any(h.get("nested_ops") for h in hints):
+        found += c17_nested.search_nested(tier, hints)
+    if not found or any(h.get("blob_case") for h in hints):
+        found += c17_nested.search_blobs(hints)
+    if not found:
+        for h in hints:
+            if h.get("post_case"):
+                msg = post_oracle(*h["post_case"])
+                if msg:
+                    found.append({"what": msg, "post_case": h["post_case"]})
+                    break
+    if not found:
+        for h in hints:
+            if h.get("resume_ops") is not None:
+                msg = resume_oracle(h["resume_ops"])
+                if msg:
+                    found.append({"what": msg, "resume_ops": h["resume_ops"]})
+                    break
+    found.sort(key=lambda f: len(f.get("ops", f.get("nested_ops", []))) or 99)
     return found
+
+
+def resume_oracle(toks):
+    """property oracle for resume on the real code: the history restored into a NEW sampler is the committed one, the two
+    managers share no memory, and nothing the caller writes into the old manager's outputs reaches the resumed one"""
+    import os
+    import shutil
+    import tempfile
+    from .witnesses import _mk_sampler
+    from .c17_nested import shared_with_internal
+    d = tempfile.mkdtemp(prefix="c17_resume_")
+    try:
+        with contextlib.redirect_stdout(io.StringIO()), warnings.catch_warnings():
+            warnings.simplefilter("ignore")
+            s1 = _mk_sampler(clustering=False, n_particles=4)
+            r = Real(s1.state)
+            for t in toks:
+                r.exec(t)
+            path = os.path.join(d, "ck.state")
+            s1.save_state(path)
+            s2 = _mk_sampler(clustering=False, n_particles=4)
+            s2.load_state(path)
+            h1 = {k: [_frozen(v) for v in l] for k, l in read_history(s1.state).items()}
+            h2 = {k: [_frozen(v) for v in l] for k, l in read_history(s2.state).items()}
+            for k in HIST_KEYS:
+                if len(h1[k]) != len(h2[k]) or not all(_same(x, y) for x, y in zip(h1[k], h2[k])):
+                    return f"resume: history['{k}'] of the resumed manager differs from the committed one"
+            if shared_with_internal([s1.state._current, s1.state._history], s2.state):
+                return "resume: the resumed manager shares arrays with the old one"
+            before = _state_reads(s2.state)
+            _scribble(s1.state.to_dict()["_history"])
+            _scribble(s1.state.get_current())
+            s2.state.update_from_dict(ex := s1.state.to_dict())
+            mid = _state_reads(s2.state)
+            _scribble(ex["_current"])
+            _scribble(ex["_history"])
+            dd = _cmp_reads(mid, _state_reads(s2.state))
+            if dd:
+                return f"resume: overwriting an imported dictionary changed {dd} of the resumed manager"
+            del before
+    finally:
+        shutil.rmtree(d, ignore_errors=True)
+    return None
+
+
+def post_oracle(toks, opts, declared):
+    """property oracle for posterior() on the real code: overwriting what it returned changes no later read, and an identical
+    second call (same random stream) returns the same values"""
+    from .witnesses import _mk_sampler
+    with contextlib.redirect_stdout(io.StringIO()), warnings.catch_warnings():
+        warnings.simplefilter("ignore")
+        np.random.seed(7)
+        s = _mk_sampler(clustering=False, n_particles=4, **({"blobs_dtype": "f8"} if declared else {}))
+        r = Real(s.state)
+        for t in toks:
+            r.exec(t)
+        before = _state_reads(s.state)
+        st = np.random.get_state()
+        try:
+            with np.errstate(all="ignore"):
+                out = s.posterior(**opts)
+        except Exception:  # noqa
+            return None
+        mid = _state_reads(s.state)
+        d = _cmp_reads(before, mid)
+        if d:
+            return f"posterior({opts}) changed {d}"
+        snap = [np.array(a, copy=True) if a is not None else None for a in out]
+        _scribble(out)
+        d = _cmp_reads(before, _state_reads(s.state))
+        if d:
+            return f"overwriting the arrays returned by posterior({opts}) changed {d}"
+        np.random.set_state(st)
+        with np.errstate(all="ignore"):
+            out2 = s.posterior(**opts)
+        if len(out2) != len(snap) or not all(_same(np.asarray(x), np.asarray(y)) for x, y in zip(snap, out2)):
+            return f"posterior({opts}) differs after the caller overwrote the previous call's output"
+    return None
 
 
 def replay(obj):
@@ -1175,6 +1497,21 @@ def replay(obj):
         return witnesses.ALL[f["replay"]["witness"]]()
     if "ops" in f:
         msg = oracle(list(f["ops"]))
+        return {"fails": msg is not None, "detail": msg}
+    if "nested_ops" in f:
+        from . import c17_nested
+        msg = c17_nested.oracle(list(f["nested_ops"]))
+        return {"fails": msg is not None, "detail": msg}
+    if "blob_case" in f:
+        from . import c17_nested
+        kind, sk, seed, n_iter = f["blob_case"]
+        problems = c17_nested.blob_run(kind, seed, n_iter, sk)
+        return {"fails": bool(problems), "detail": problems[:3]}
+    if "post_case" in f:
+        msg = post_oracle(*f["post_case"])
+        return {"fails": msg is not None, "detail": msg}
+    if "resume_ops" in f:
+        msg = resume_oracle(list(f["resume_ops"]))
         return {"fails": msg is not None, "detail": msg}
     if "sampler_seed" in f:
         toks, impl, problems = sampler_run(f["sampler_seed"], f.get("n_iter", 4), common.rng_for("C17.sampler"))
